@@ -168,7 +168,7 @@ def agree_vc(name, ctx, outs, i, j, guard=None, twin=False):
             if couts[i]["kind"] == couts[j]["kind"]:
                 return None
             return f"outcome kinds differ: {couts[i]['kind']} vs {couts[j]['kind']}"
-        return VC(name + ":kind", guard, judge, {"kinds": [a["kind"], b["kind"]], "candidates": HASH_COLLISION_POINTS})
+        return VC(name + ":kind", guard, judge, {"kinds": [a["kind"], b["kind"]], "candidates": _cands(ctx)})
     if a["kind"] != "value":
         return None
     if isinstance(a.get("value"), list) and isinstance(b.get("value"), list):
@@ -203,7 +203,7 @@ def agree_vc(name, ctx, outs, i, j, guard=None, twin=False):
         if not orc.close(x["mp"], y["mp"] + (1 if twin else 0)):
             return f"values differ: {mpmath.nstr(x['mp'], 17)} vs {mpmath.nstr(y['mp'], 17)}"
         return None
-    return VC(name, z3.And(guard, ta != tb), judge, {"candidates": HASH_COLLISION_POINTS})
+    return VC(name, z3.And(guard, ta != tb), judge, {"candidates": _cands(ctx)})
 
 
 def _agree_lists(name, xs, ys, i, j, guard):
@@ -227,6 +227,10 @@ def _agree_lists(name, xs, ys, i, j, guard):
                 return f"values differ: {mpmath.nstr(u, 17)} vs {mpmath.nstr(v, 17)}"
         return None
     return VC(name, z3.And(guard, z3.Or(diffs)), judge, {"candidates": HASH_COLLISION_POINTS})
+
+
+def _cands(ctx):
+    return list((getattr(ctx, "spec", None) or {}).get("candidates", [])) + HASH_COLLISION_POINTS
 
 
 # CPython's real numeric-hash collisions, tried first by the replay gate (a hash-keyed table is explored symbolically on its colliding path)
